@@ -59,6 +59,7 @@ type Job struct {
 	Random     int         `json:"random"`     // additional unsteered runs (random n, c, outcomes, timing)
 	RealNever  int         `json:"real_never"` // runs in which a silent upstream is left to the worker's own 5 s timeout
 	StepWaitMs int         `json:"step_wait_ms"`
+	Early      int         `json:"early"` // runs in which the call returns before (some) workers have started
 }
 
 type Event map[string]any
@@ -97,6 +98,7 @@ type scenario struct {
 	query     []byte
 	ncol      int
 	honourAll bool
+	instant   bool // the first exchange to arrive answers "good" at once, without waiting for the controller
 	t0        time.Time
 }
 
@@ -139,6 +141,11 @@ func (u *fakeUp) ExchangeContext(ctx context.Context, m []byte) (*[]byte, error)
 	ddlOK := has && ddl.Sub(time.Now()) <= 5*time.Second+500*time.Millisecond
 	s.calls = append(s.calls, c)
 	s.log("Asked", "cid", c.cid, "pos", pos, "same", bytes.Equal(m, s.query), "ddl", ddlOK)
+	if s.instant && c.cid == 1 {
+		c.released = true
+		s.log("Release", "cid", c.cid, "o", "good", "intact", bytes.Equal(c.m, c.snap))
+		c.release <- "good"
+	}
 	s.mu.Unlock()
 
 	var o string
@@ -273,7 +280,7 @@ func runOne(idx int, b *Behaviour, kind string, job *Job, rng *rand.Rand) Out {
 		out.Why = "constructor: " + err.Error()
 		return out
 	}
-	s := &scenario{posOf: map[int]int{}, honourAll: kind == "never", t0: time.Now()}
+	s := &scenario{posOf: map[int]int{}, honourAll: kind == "never", instant: kind == "early-instant", t0: time.Now()}
 	var exec func(context.Context, *query_context.Context) error
 	if useTags {
 		perm := rng.Perm(poolN)[:n]
@@ -326,6 +333,13 @@ func runOne(idx int, b *Behaviour, kind string, job *Job, rng *rand.Rand) Out {
 
 	ctx, cancel := context.WithCancelCause(context.Background())
 	defer cancel(nil)
+	if kind == "early-precancel" {
+		// the caller's context has already ended when the call is made
+		s.mu.Lock()
+		s.log("Cancel")
+		s.mu.Unlock()
+		cancel(errCause)
+	}
 	resCh := make(chan execRes, 1)
 	go func() {
 		err := exec(ctx, qCtx)
@@ -398,11 +412,12 @@ func runOne(idx int, b *Behaviour, kind string, job *Job, rng *rand.Rand) Out {
 			out.Why = fmt.Sprintf("only %d of %d exchanges started", ncalls(), b.K)
 		}
 		time.Sleep(200 * time.Microsecond) // let surplus exchanges (if any) show up early; they are logged whenever they come
-	} else {
+	} else if kind == "random" || kind == "never" {
 		// unsteered runs do not know k: take the exchanges that have started after a short while
 		poll(stepWait, func() bool { return ncalls() >= 1 })
 		time.Sleep(2 * time.Millisecond)
 	}
+	// (early-*: nothing to do; the call returns on its own, possibly before its workers have started)
 
 	switch kind {
 	case "replay":
@@ -640,6 +655,25 @@ func main() {
 		if stuck >= maxStuck || leaked >= maxStuck {
 			break
 		}
+	}
+	// the call returns before workers have started: context already cancelled / an instantly answering
+	// upstream; half of the rounds on a single P, so that the spawned workers cannot run before the
+	// collector has returned and released the packed query
+	for i := 0; i < job.Early && stuck < maxStuck && leaked < maxStuck; i++ {
+		b := &Behaviour{N: ns[rng.Intn(3)], C: []int{1, 2, 3, 3, 5}[rng.Intn(5)]}
+		kind := []string{"early-precancel", "early-instant"}[i%2]
+		old := 0
+		if (i/2)%2 == 0 {
+			old = runtime.GOMAXPROCS(1)
+		}
+		o := runOne(idx, b, kind, &job, rng)
+		if old > 0 {
+			runtime.GOMAXPROCS(old)
+			o.Conf += " GOMAXPROCS=1"
+		}
+		o.Beh = b
+		vh.Emit(o)
+		idx++
 	}
 	vh.Flush()
 }
